@@ -15,7 +15,25 @@ use crate::util::stream_splitter::{self, ChunkStream, Data};
 
 enum Msg { Payload(Vec<u8>), Eof(Vec<u8>), Err(u128) }
 
+// watchdog: the splitter and its consumer must terminate ("fail rather than block"); a case that does not answer within 10 s is reported as
+// (254 1) and its threads are left behind
+static BLOCKED: std::sync::atomic::AtomicUsize = std::sync::atomic::AtomicUsize::new(0);
+
 pub fn run(v: &Val) -> Val {
+    use std::sync::atomic::Ordering;
+    if BLOCKED.load(Ordering::SeqCst) >= 3 {
+        return Val::L(vec![Val::n(254), Val::n(2)]);        // not run: three earlier cases of this process never answered
+    }
+    let (tx, rx) = mpsc::channel();
+    let v2 = v.clone();
+    thread::spawn(move || { let _ = tx.send(run_inner(&v2)); });
+    match rx.recv_timeout(Duration::from_secs(5)) {
+        Ok(r) => r,
+        Err(_) => { BLOCKED.fetch_add(1, Ordering::SeqCst); Val::L(vec![Val::n(254), Val::n(1)]) }
+    }
+}
+
+fn run_inner(v: &Val) -> Val {
     let l = match v.list() { Some(l) if l.len() >= 3 => l, _ => return sexp::bad_input() };
     let max: Option<u64> = match l[0].list() { Some(o) if o.is_empty() => None, Some(o) => o[0].num().map(|x| x as u64), None => return sexp::bad_input() };
     let budget: Option<u64> = match l[1].list() { Some(o) if o.is_empty() => None, Some(o) => o[0].num().map(|x| x as u64), None => return sexp::bad_input() };
